@@ -205,7 +205,7 @@ def run_part(chk):
         r = _run_harness(chk, exe, "corpus -in %s -tier %s" % (corpus, chk.tier), "corpus", 1200)
         if r:
             _fold(chk, part, *r)
-    n = 320 if chk.tier == "quick" else 4000
+    n = 220 if chk.tier == "quick" else 1500
     r = _run_harness(chk, exe, "gen -seed %d -n %d -knobs all -tier %s" % (chk.seed, n, chk.tier), "gen", 3 * 3600)
     if r:
         _fold(chk, part, *r)
